@@ -347,7 +347,8 @@ def units(tier):
     u = []
     for mw, depth in ([(2, 4)] if tier == "quick" else [(3, 4), (2, 5)]):
         en = make_enabled(tier, mw)
-        _, m0 = start()
+        w0, m0 = start()
+        w0.close()
         for op1 in en(m0):
             m1 = {"writers": [[op1[1], 4 if op1[2] is None else op1[2], op1[3], 0, 0]], "nfiles": 0, "file_fmts": []}
             for op2 in en(m1):
